@@ -155,11 +155,15 @@ impl History {
         let reset_names: [&[u8]; 8] = [b"refs/heads/other", b"refs/tags/lw", b"refs/tags/v1", b"refs/zzz/old", b"refs/remotes/origin/main", b"refs/tags/rel-2", b"refs/heads/main2", b"refs/tags/ann"];
         for _ in 0..rng.below(4) {
             let r = rng.pick(&reset_names).to_vec();
-            if h.resets.iter().any(|(x, _)| *x == r) && rng.chance(4, 5) { continue; }
+            if h.resets.iter().any(|(x, _)| *x == r) { continue; }
             h.resets.push((r, rng.below(ncommits)));
         }
         for _ in 0..rng.below(3) {
             let name = rng.pick(&[&b"ann"[..], b"v2", b"rel-1", b"v1"]).to_vec();
+            // a ref name exists once in a repository: no second tag of that name, no lightweight tag or
+            // commit header using it
+            let full = [b"refs/tags/".as_ref(), &name].concat();
+            if h.tags.iter().any(|t| t.name == name) || h.resets.iter().any(|(r, _)| *r == full) || h.commits.iter().any(|c| c.refname == full) { continue; }
             let mark = if rng.chance(2, 3) { let m = next_mark; next_mark += 1; Some(m) } else { None };
             let mut tagger = b"T Agger <t@e> 1700000000 +0000".to_vec();
             if rng.chance(1, 4) { tagger = b"J\xc3\xb6rg <old@example.com> 5 -0830".to_vec(); }
@@ -339,6 +343,8 @@ impl OptSet {
             for _ in 0..1 + rng.below(2) {
                 let old = prefix(rng);
                 let new = rng.pick(&[&b""[..], b"new/", b"e/", b"moved/sub/", b"sp ace/", b"z"]).to_vec();
+                // renaming a whole file name to the empty path is a misconfiguration outside every claim
+                if new.is_empty() && !old.ends_with(b"/") { continue; }
                 if old != new { o.renames.push((old, new)); }
             }
         }
